@@ -33,7 +33,9 @@ def main():
         stable = {t for t in stable if t.split("::")[0].rsplit(".", 1)[0] in mods}
     res = run(d, n if not only else 1, only)
     bad = sorted(t for t in stable if not res.get(t, False))
-    if bad and n > 1:   # re-run the failing files serially (xdist interference)
+    for _retry in range(2):   # re-run the failing files serially (xdist interference, sampling-based flaky tests)
+        if not bad:
+            break
         files = sorted({"/".join(t.split("::")[0].split(".")[:-1]) + ".py" for t in bad})
         res2 = run(d, 1, files)
         bad = sorted(t for t in bad if not res2.get(t, False))
